@@ -53,6 +53,7 @@ inductive Kind where
   | pendingCall (t : Option Ticket)                     -- `None` = reserved slot / internal unsubscribe
   | pendingSub (unsubId : Id) (t : Ticket) (unsubMethod : Text)
   | sub (unsubId : Id) (chan : ChanId) (unsubMethod : Text)
+  | pendingUnsub (subReq : Id)       -- under the unsubscribe id while that call is in flight; holds the subscribe id
   deriving DecidableEq, Repr
 
 /-- manager.rs:84-96 -/
@@ -115,25 +116,43 @@ def completePendingBatch (m : Mgr) (r : Nat × Nat) : Option (Mgr × Ticket) :=
   | some t => some ({ m with batches := aerase r m.batches }, t)
   | none => none
 
-/-- manager.rs:238-250 -/
+/-- `release_reserved_slot`: frees the slot `insert_pending_subscription` reserved for the unsubscribe
+call, if it is still unused -/
+def releaseReservedSlot (m : Mgr) (id : Id) : Mgr :=
+  match alookup id m.requests with
+  | some (.pendingCall none) => { m with requests := aerase id m.requests }
+  | _ => m
+
+/-- end of `unsubscribe`: remember under the reserved unsubscribe id which marker to drop on
+acknowledgement -/
+def markUnsubscribing (m : Mgr) (uid rid : Id) : Mgr :=
+  match alookup uid m.requests with
+  | some (.pendingCall none) => { m with requests := areplace uid (.pendingUnsub rid) m.requests }
+  | _ => m
+
+/-- `complete_pending_call`: a plain pending call, or the acknowledgement of an unsubscribe call —
+then the marker `unsubscribe` left under the subscribe id is dropped as well -/
 def completePendingCall (m : Mgr) (id : Id) : Option (Mgr × Option Ticket) :=
   match alookup id m.requests with
   | some (.pendingCall t) => some ({ m with requests := aerase id m.requests }, t)
+  | some (.pendingUnsub rid) => some (({ m with requests := aerase id m.requests }).releaseReservedSlot rid, none)
   | _ => none
 
-/-- manager.rs:255-275: removes the subscription entry and the reverse index; the reserved
-unsubscribe slot is **not** touched -/
+/-- `remove_subscription`: removes the subscription entry and the reverse index and releases the
+reserved unsubscribe slot (no unsubscribe call will be made) -/
 def removeSubscription (m : Mgr) (rid : Id) (s : SubId) : Option (Mgr × Id × ChanId × Text) :=
   match alookup rid m.requests, alookup s m.subs with
   | some (.sub uid c um), some _ =>
-    some ({ m with requests := aerase rid m.requests, subs := aerase s m.subs }, uid, c, um)
+    some (({ m with requests := aerase rid m.requests, subs := aerase s m.subs }).releaseReservedSlot uid, uid, c, um)
   | _, _ => none
 
-/-- manager.rs:281-302: the subscription entry is **replaced** by `PendingMethodCall(None)` -/
+/-- `unsubscribe`: the subscription entry is **replaced** by the marker `PendingMethodCall(None)`,
+the reserved slot becomes `PendingUnsubscribe(subscribe id)` -/
 def unsubscribe (m : Mgr) (rid : Id) (s : SubId) : Option (Mgr × Id × ChanId × Text) :=
   match alookup rid m.requests, alookup s m.subs with
   | some (.sub uid c um), some _ =>
-    some ({ m with requests := areplace rid (.pendingCall none) m.requests, subs := aerase s m.subs }, uid, c, um)
+    some (({ m with requests := areplace rid (.pendingCall none) m.requests, subs := aerase s m.subs }).markUnsubscribing uid rid,
+          uid, c, um)
   | _, _ => none
 
 /-- manager.rs:305-311 -/
@@ -143,6 +162,7 @@ def requestStatus (m : Mgr) (id : Id) : Status :=
   | some (.pendingCall _) => .pendingCall
   | some (.pendingSub _ _ _) => .pendingSub
   | some (.sub _ _ _) => .sub
+  | some (.pendingUnsub _) => .pendingCall
 
 /-- manager.rs:316-318 -/
 def asSubscription (m : Mgr) (rid : Id) : Option ChanId :=
@@ -183,7 +203,7 @@ structure Chan where
   accepted : List Text := []        -- the payloads `try_send` accepted
   yielded : List Text := []         -- the payloads `next` returned
   gapped : Bool := false            -- a payload was accepted after an earlier one had been refused
-  fullSeen : Nat := 0               -- how often `try_send` reported `Full`
+  fullSeen : Nat := 0               -- how often `send` answered `TooSlow` (buffer full, or refused after a lag)
   unsubWires : Nat := 0             -- unsubscribe requests written to the transport for this channel
   closedByServer : Bool := false    -- ended by a close/error notification
   unsubscribed : Bool := false      -- ended by `RequestManager::unsubscribe`
@@ -195,9 +215,11 @@ inductive SendRes where
   | ok | closed | full
   deriving DecidableEq, Repr
 
-/-- outcome of `mpsc::Sender::try_send` (tokio reports `Closed` before `Full`) -/
+/-- outcome of `SubscriptionSender::send`: once lagged every message is refused (`TooSlow`);
+otherwise `mpsc::Sender::try_send` (tokio reports `Closed` before `Full`) -/
 def Chan.sendRes (c : Chan) : SendRes :=
-  if !c.receiverAlive then .closed
+  if c.lagged then .full
+  else if !c.receiverAlive then .closed
   else if c.buf.length < c.cap then .ok
   else .full
 
@@ -345,29 +367,29 @@ def processNotification (st : Core) (meth : Text) (params : Option Text) : Core 
         (({ st with mgr := (st.mgr.removeNotificationHandler meth).1 }).modChan c
             (fun x => dropSender (x.afterSend (params.getD tNull))), [])
 
-/-- the new subscription is in the tables but nobody waits for it any more (helpers.rs:220-223):
-the receiver half travelled inside the failed `send` and is dropped with it, then
-`build_unsubscribe_message` -/
-def abandonedSubscribe (st : Core) (c : ChanId) (rid : Id) (s : SubId) (t : Ticket) : Core × List Effect :=
-  match buildUnsubscribeMessage (st.modChan c (fun ch => { dropReceiver ch with hasKind := false })) rid s with
-  | some (st', msg) => (st', [.dropped t (.subscribed c s), .toFront msg])
-  | none => (st.modChan c (fun ch => { dropReceiver ch with hasKind := false }), [.dropped t (.subscribed c s)])
+/-- the new subscription is in the tables but nobody waits for it any more (helpers.rs): the
+receiver half travelled inside the failed `send` and is dropped with it; the read task queues
+`SubscriptionClosed(sub_id)` so that the send task builds and sends the unsubscribe call -/
+def abandonedSubscribe (st : Core) (c : ChanId) (s : SubId) (t : Ticket) : Core × List Effect :=
+  (st.modChan c (fun ch => { dropReceiver ch with hasKind := false }),
+   [.dropped t (.subscribed c s), .toFront (.subscriptionClosed s)])
 
-/-- helpers.rs:192-228, the `PendingSubscription` arm (the entry has already been removed) -/
+/-- the `PendingSubscription` arm of `process_single_response` (the entry has already been removed);
+every path that establishes no subscription releases the reserved unsubscribe slot -/
 def completeSubscribe (st : Core) (r : Response) (uid : Id) (t : Ticket) (um : Text) : Core × List Effect :=
   match r.payload with
-  | .error e => (st, st.completeIfAlive t (.callErr e))
+  | .error e => ({ st with mgr := st.mgr.releaseReservedSlot uid }, st.completeIfAlive t (.callErr e))
   | .result raw =>
     match decodeSubId raw with
-    | none => (st, st.completeIfAlive t .badSubId)
+    | none => ({ st with mgr := st.mgr.releaseReservedSlot uid }, st.completeIfAlive t .badSubId)
     | some s =>
       match st.mgr.insertSubscription r.id uid s st.chans.length um with
-      | none => (st, st.completeIfAlive t .invalidSubId)
+      | none => ({ st with mgr := st.mgr.releaseReservedSlot uid }, st.completeIfAlive t .invalidSubId)
       | some m' =>
         if st.alive t then
           ((({ st with mgr := m' }).newChan (.sub s) t.op uid).1, [.complete t (.subscribed st.chans.length s)])
         else
-          abandonedSubscribe (({ st with mgr := m' }).newChan (.sub s) t.op uid).1 st.chans.length r.id s t
+          abandonedSubscribe (({ st with mgr := m' }).newChan (.sub s) t.op uid).1 st.chans.length s t
 
 /-- helpers.rs:174-234 -/
 def processSingleResponse (st : Core) (r : Response) : Except Fatal (Core × List Effect) :=
